@@ -78,6 +78,7 @@ pub fn vfs_remove_file<P: AsRef<Path>>(p: P, Tracked(w): Tracked<&mut World>) ->
     ensures
         r is Ok ==> final(w).files == old(w).files.remove(asp(p)) && final(w).log == old(w).log.push(Eff::Unlink(asp(p))),
         r is Err ==> final(w).files == old(w).files && final(w).log == old(w).log,
+        (io_ok() && old(w).files.contains_key(asp(p))) ==> r is Ok,
 { unimplemented!() }
 
 pub mod vfs {
